@@ -77,7 +77,9 @@ const std::vector<std::string>& name_opts() {
                                        "Fixed/UTC+24:00:01", "Fixed/UTC+5:30:00", "UTC00", "utc", "Fixed/UTC+00:00:00", "Fixed/UTC-24:00:00", "Fixed/UTC+05:30", "file:Fixed/UTC+05:30:00",
                                        "Dir/../X", "X/.", "Dir/./Y", "./Dir//Y", " X", "X ", "\xc3\x9cn\xc3\xaf/X", "EST5EDT", "<+03>-3", "Dir/../../X", "X/../X", "LONG", "Dir/Y/", "x", "X\tX", "NUL1", "NUL2", "NUL3", "NUL4",
                                        // fields of 60..99 are accepted as long as the total stays within 24 h (and the zone reports the spelling it was asked for)
-                                       "Fixed/UTC+00:60:00", "Fixed/UTC+05:90:00", "Fixed/UTC-00:00:99", "Fixed/UTC+23:60:01", "Fixed/UTC+23:59:60", "Fat", "file:Fat", "A%sB", "A\\B", "~/X", "EST5EDT,M3.2.0,M11.1.0"};
+                                       "Fixed/UTC+00:60:00", "Fixed/UTC+05:90:00", "Fixed/UTC-00:00:99", "Fixed/UTC+23:60:01", "Fixed/UTC+23:59:60", "Fat", "file:Fat", "A%sB", "A\\B", "~/X", "EST5EDT,M3.2.0,M11.1.0",
+                                       // names that leave $TZDIR through "..": still "relative to $TZDIR", and the file is there
+                                       "../out/Z", "Dir/../../out/Z", "file:../out/Z"};
   return v;
 }
 
@@ -127,6 +129,12 @@ void standard_tree(C19Case* c) {
     add(d + "/A\\B", "reg", "marker");
     add(d + "/~", "dir", "");
     add(d + "/~/X", "reg", "marker");
+    {
+      size_t sl = d.rfind('/');
+      std::string parent = sl == std::string::npos ? std::string("..") : (sl == 0 ? std::string("") : d.substr(0, sl));   // (relative/dir -> relative)
+      add(parent + "/out", "dir", "");
+      add(parent + "/out/Z", "reg", "marker");
+    }
     add(d + "/Fat", "reg", "markerfat:250");    // "zic -b fat" layout: a populated 32-bit block of 1262 bytes precedes the data that is decoded
     add(d + "/MarkF", "reg", "markerf");        // marker zone with a non-empty footer
     add(d + "/TruncNL", "reg", "truncf:1");     // ... whose closing newline is missing
@@ -580,6 +588,7 @@ Outcome exec_c19(const C19Case& c, bool keep_log, Stats* stats) {
       out.log_hash = 3;
       return out;
     }
+    if (g_premain.unsupported_api) viol("machinery:file-api-not-simulated", "the library called open/openat/opendir before main()", "");
     run_world(c.chunk, &res2, &opens2);   // post-main repeat (also installs fs.nodes for the model)
     res1.assign(c.ops.size(), OpResult());
     for (size_t i = 0; i < c.ops.size() && i < 8; ++i) {
@@ -683,6 +692,7 @@ Outcome exec_c19(const C19Case& c, bool keep_log, Stats* stats) {
       if (o.op == "load" && !builtin_name(o.name, &off) && o.name.find('\0') == std::string::npos) needs_file = true;   // (a name with a NUL names no file)
       if (o.op == "local") needs_env = true;
     }
+    if (!fs.unsupported_api.empty()) viol("machinery:file-api-not-simulated", "the library called " + fs.unsupported_api, "only fopen, stat, lstat, access, realpath, readlink and getcwd are served from the simulated file system");
     if (needs_file && fopen_count == 0) viol("machinery:fopen-seam-bypassed", "no fopen call reached the simulated file system", "the library opened files through an entry point this harness does not intercept");
     if (needs_env && !env_was_read) viol("machinery:getenv-seam-bypassed", "local_time_zone() did not read its environment through getenv", "");
   }
